@@ -2,6 +2,7 @@ import Driver.Loop
 import Driver.SdlCodec
 import PyGqlModel.SdlPrint
 import PyGqlModel.SdlText
+import PyGqlModel.SdlPrintTA
 import PyGqlModel.ParseJson
 open PyGql PyGql.Sdl PyGql.SdlPrint
 
@@ -15,12 +16,17 @@ def handleC12 (j : J) : J :=
   match j.strD "op" with
   | "history" =>
     let st := if j.strD "state" == "generator" then initialGenerator else initialCollection
-    let schemas := (j.arrD "schemas").map fun s => (Driver.schemaOfJson (s.getD "schema"), appsOfJson s)
+    let schemas := (j.arrD "schemas").map fun s =>
+      let bj := s.getD "builtins"
+      let b : Builtins := { specified := (Driver.schemaOfJson (.obj [("types", .arr []), ("directives", .arr (bj.arrD "specified"))])).directives,
+                            introspection := (Driver.schemaOfJson (.obj [("types", .arr (bj.arrD "introspection")), ("directives", .arr [])])).types }
+      (Driver.schemaOfJson (s.getD "schema"), appsOfJson s, b)
     let calls := (j.arrD "calls").map fun c =>
-      let (s, a) := schemas.getD (c.natD "schema") (default, [])
+      let (s, a, b) := schemas.getD (c.natD "schema") (default, [], default)
       let wl : Option (List String) := match c.get? "whitelist" with | some (.arr a) => some (a.filterMap J.asStr?) | _ => none
-      (({ indent := c.strD "indent", descriptions := c.boolD "descriptions", custom := c.boolD "custom", whitelist := wl } : Opts), s, a)
-    .obj [("texts", .arr ((runHistory st calls).map .str))]
+      (({ indent := c.strD "indent", descriptions := c.boolD "descriptions", custom := c.boolD "custom", whitelist := wl } : Opts),
+        c.boolD "introspection", b, s, a)
+    .obj [("texts", .arr ((runHistoryX st calls).map .str))]
   | "printT" =>
     -- the second (total, Text-based) model of the printer, the first model on the same input, the lexical
     -- well-formedness predicate and the text-level statement `parse(printSchemaT s) = tree of the denoted document`
@@ -34,6 +40,37 @@ def handleC12 (j : J) : J :=
       | _, _ => false
     .obj [("text", .str (stringOfText t)), ("same", .bool (stringOfText t == first)),
           ("wf", .bool (SdlText.printTextWF o s)), ("parses", .bool parses)]
+  | "printTA" =>
+    -- the total Text model WITH applied schema directives (`include_custom_schema_directives` truthy / whitelist), the first
+    -- model on the same input, `printTextWFA`, and the statement `parse(printSchemaTA s apps) = tree of printedDocA` evaluated
+    let s := Driver.schemaOfJson (j.getD "schema")
+    let apps := appsOfJson j
+    let ind := j.strD "indent"
+    let wl : Option (List String) := match j.get? "whitelist" with | some (.arr a) => some (a.filterMap J.asStr?) | _ => none
+    let c : SdlPrintTA.OptsA := { base := { indent := textOfString ind, descriptions := j.boolD "descriptions" },
+                                  custom := j.boolD "custom", whitelist := wl }
+    let t := SdlPrintTA.printSchemaTA c s apps
+    let first := (printSchema { indent := ind, descriptions := j.boolD "descriptions", custom := j.boolD "custom", whitelist := wl }
+      s apps initialCollection).1
+    let parses := match SdlText.parseSdlTextT t, SdlText.docToAst (SdlPrintTA.printedDocA s c apps) with
+      | some a, some b => a.toJson.render == b.toJson.render
+      | _, _ => false
+    let erased := (SdlPrintTA.printedDocA s c apps).map SdlPrintTA.eraseCustom
+    let blockOnly := SdlPrintTA.needsSchemaBlockA s c apps && !needsSchemaBlock s
+    -- `BuildIgnoresCustomStatement` evaluated: building the denoted document and building its erasure agree
+    let buildErased := match build (SdlPrintTA.printedDocA s c apps), build erased with
+      | .ok a, .ok b => a == b
+      | .error _, .error _ => true
+      | _, _ => false
+    .obj [("text", .str (stringOfText t)), ("same", .bool (stringOfText t == first)),
+          ("wf", .bool (SdlPrintTA.printTextWFA c s apps)), ("parses", .bool parses),
+          ("kept", .num (((SdlPrintTA.printedDocA s c apps).map (fun d => match d with
+              | .type t => t.dirs.length + (t.fields.map (fun f => (f.dirs.filter (·.name != "deprecated")).length + (f.args.map (·.dirs.length)).sum)).sum
+                  + (t.values.map (fun v => (v.dirs.filter (·.name != "deprecated")).length)).sum + (t.inputFields.map (·.dirs.length)).sum
+              | .schema sd => sd.dirs.length
+              | .directive d => (d.args.map (·.dirs.length)).sum
+              | _ => 0)).sum : Nat)),
+          ("blockOnly", .bool blockOnly), ("buildErased", .bool buildErased)]
   | _ => .obj [("error", .str "bad-op")]
 
 def main : IO Unit := Driver.run handleC12
